@@ -5,7 +5,8 @@
      WeightsConvexAll   (C02)  bilinear weights are non-negative and sum to Q*Q      -- MC_Interp!Convex
      ClockInverseAll    (C13)  time -> step inverts step -> time, both directions    -- MC_Clock!InverseLaw
      FamilyOrder2All    (C01)  every member of the two-stage family has order 2      -- MC_Tableau!FamilyOrder2
-     ColdRecordsInWindow(C07)  every record step of a cold run lies in [0, nsteps)   -- MC_OutFile!ColdWindow        *)
+     ColdRecordsInWindow(C07)  every record step of a cold run lies in [0, nsteps)   -- MC_OutFile!ColdWindow
+     LerpEndpointsAll   (C03)  TimeToStepFloorAll (C13)  WarmRecordsInWindow (C08)                                  *)
 EXTENDS Integers, TLAPS
 
 \* ---- copied verbatim from Tracker.tla / Clock.tla / Tableau.tla / OutFile.tla (checked textually by run.py setup)
@@ -15,6 +16,7 @@ Reflect(z, dz, h) == LET z1 == z + dz
 Fam2B1(sn, sd) == 2 * sn - sd
 Fam2B2(sn, sd) == sd
 CeilDiv(a, b) == (a + b - 1) \div b
+LerpVal(v0, v1, a, b, s2) == v0 + ((v1 - v0) * (s2 - 2 * a)) \div (2 * (b - a))
 
 THEOREM InColumnAll ==
    \A z, dz, h \in Int : (0 <= z /\ z <= h /\ 0 - h < dz /\ dz < h) => (0 <= Reflect(z, dz, h) /\ Reflect(z, dz, h) <= h)
@@ -39,4 +41,20 @@ BY DEF Fam2B1, Fam2B2
 THEOREM ColdRecordsInWindow ==
    \A nsteps, ops, k \in Int : (nsteps >= 1 /\ ops >= 1 /\ k >= 1 /\ k <= CeilDiv(nsteps, ops)) => ((k - 1) * ops >= 0 /\ (k - 1) * ops < nsteps)
 BY DEF CeilDiv
+
+\* C03: the interpolation passes through the bracketing frames               -- MC_Frames!InterpOK at frame steps
+THEOREM LerpEndpointsAll ==
+   \A v0, v1, a, b \in Int : (b > a) => (LerpVal(v0, v1, a, b, 2 * a) = v0 /\ LerpVal(v0, v1, a, b, 2 * b) = v1)
+BY DEF LerpVal
+
+\* C13: time -> step is the floor                                            -- MC_Clock!FloorLaw
+THEOREM TimeToStepFloorAll ==
+   \A start, t, dt \in Int : dt > 0 =>
+       LET n == (t - start) \div dt IN start + n * dt <= t /\ t < start + (n + 1) * dt
+OBVIOUS
+
+\* C08: every record step of a warm-started run lies in [1, nsteps]           -- MC_OutFile (warm schedule)
+THEOREM WarmRecordsInWindow ==
+   \A nsteps, ops, k \in Int : (nsteps >= 0 /\ ops >= 1 /\ k >= 1 /\ k <= nsteps \div ops) => (k * ops >= 1 /\ k * ops <= nsteps)
+OBVIOUS
 =============================================================================
